@@ -255,6 +255,33 @@ def _to_value_nf(nf, c):
         raise AnalysisError(f"{c.qualname}.to_value not normalisable: {e}")
 
 
+def r6_sum_model(ctx) -> None:
+    """the model term of a sum constant: all variant rows, then the field types of the *tagged* row, the tag, the field values"""
+    from ..rulekit import unold
+    from ..tmpl import T, tmatch
+    fn, m, _ = ctx.locate("hugr.val.Sum.to_model")
+    ps = [p for p in ctx.paths("hugr.val.Sum.to_model") if p.kind == "return"]
+    rows = "[model.List([c1.to_model() for c1 in c0]) for c0 in self.typ.variant_rows]"
+    want_types = (f"[model.Apply('core.const', [c0]) for c0 in {rows}[self.tag].parts]",
+                  "[model.Apply('core.const', [c0.to_model()]) for c0 in self.typ.variant_rows[self.tag]]")
+    bad = ""
+    for p in ps:
+        e = tmatch(ast.parse(unold(p.value), mode="eval").body, T("model.Apply('core.const.adt', [model.List(E_rows), model.List(E_types), model.Literal(E_tag), model.Tuple(E_vals)])"))
+        if e is None:
+            bad = f"term shape: {unold(p.value)[:200]}"
+        elif e["E_rows"] != rows:
+            bad = f"variant rows: {e['E_rows'][:200]}"
+        elif e["E_types"] not in want_types:
+            bad = f"field types: {e['E_types'][:200]}"
+        elif e["E_tag"] != "self.tag" or e["E_vals"] != "[c0.to_model() for c0 in self.vals]":
+            bad = f"tag / values: {e['E_tag']} / {e['E_vals'][:120]}"
+        if bad:
+            break
+    ctx.check(bool(ps) and not bad, "C14.R6", "hugr.val.Sum.to_model: field types of the tagged row", m.path, fn.lineno,
+              "the exported constant must list every variant row, the types of the row selected by self.tag (not of another row), the tag and the "
+              f"values of self.vals [{bad}]", fn, expected=want_types[0], found=bad)
+
+
 def r4_load_path(ctx, nf) -> None:
     df = ctx.program.cls("hugr.build.dfg.DfBase")
     m = df.methods.get("load")
@@ -305,6 +332,11 @@ def run(ctx) -> None:
     r2_type_plumbing(ctx, nf)
     r3_std_constants(ctx, nf)
     r4_load_path(ctx, nf)
+    ctx.rule("C14.R6", "model export of a sum constant: variant rows, field types of the tagged row, tag, values", floor=1)
+    r6_sum_model(ctx)
+    ctx.rule("C14.R5", "a reloaded value keeps the fields its type is computed from: S.deserialize ∘ X._to_serial is the identity on every init-field of every value class (shared with C02.R1)", floor=5)
+    from .c02 import r1_forward_codec
+    r1_forward_codec(ctx, nf, rule="C14.R5", modules=("hugr.val",))
     from .. import lints
     lints.arm(ctx)
 
